@@ -85,4 +85,32 @@ mod verif_kani {
         let mut out = [0u8; 66];
         pk.write_exact(&mut out[..len]);
     }
+
+    /// Kani twin of the Verus contract of Deserializable::from_bytes for the X25519 keys, complete over all
+    /// byte strings of length 0..=66: wrong length -> IncorrectInputLength(32, len) (expected first, given
+    /// second); 32 bytes -> Ok and the key re-serializes to the input
+    #[kani::proof]
+    #[kani::unwind(68)]
+    #[kani::stub(zeroize::optimization_barrier, noop_barrier)]
+    fn x25519_from_bytes_full() {
+        let len: usize = kani::any();
+        kani::assume(len <= 66);
+        let buf: [u8; 66] = kani::any();
+        let rp = PublicKey::from_bytes(&buf[..len]);
+        let rs = PrivateKey::from_bytes(&buf[..len]);
+        kani::cover!(len == 32);
+        kani::cover!(len == 31);
+        if len != 32 {
+            assert!(matches!(rp, Err(HpkeError::IncorrectInputLength(32, l)) if l == len));
+            assert!(matches!(rs, Err(HpkeError::IncorrectInputLength(32, l)) if l == len));
+        } else {
+            let (pk, sk) = (rp.unwrap(), rs.unwrap());
+            let mut o1 = [0u8; 32];
+            let mut o2 = [0u8; 32];
+            pk.write_exact(&mut o1);
+            sk.write_exact(&mut o2);
+            let mut i = 0;
+            while i < 32 { assert!(o1[i] == buf[i] && o2[i] == buf[i]); i += 1; }
+        }
+    }
 }
